@@ -65,7 +65,7 @@ PROPS = {
         rule="Lagrange: id sets (subsets of 1..20 = table path, ids up to 2^63 and mixed = generic path, permuted) with error probes; non-trivial = "
              "|S|>=2. Sign (no chain): n 1-24 members with ids from 1..40, threshold, polynomial, committee, message, nonces; 40-50 single-component "
              "corruptions per case; non-trivial = committee >=2 and >=1 corruption tried. Chain: TSS histories on the real app with corrupted "
-             "MsgSubmitSignature variants (z+1, foreign R, shifted (R+dG,z+d), z of another member, other member id, wrong signer, other message, "
+             "MsgSubmitSignature variants (z+1, foreign R, shifted (R+dG,z+d), mirrored scalar z-2k (share equation yields -R), z of another member, other member id, wrong signer, other message, "
              "bit flip, non-assigned, duplicate); non-trivial = threshold >=2 and >=1 corruption tried. Thorough adds ALL 10,485,760 (member, subset "
              "of 1..20) pairs; distinct = hash of case JSON",
         explanation="independent verifier in ref/ (math/big + decred group ops, challenge layout from the statement, validated against the repo's recorded "
@@ -82,7 +82,7 @@ PROPS = {
         rule="case = group size 2-6 (thorough occasionally 7-12), threshold 1..n, polynomial kinds (library-random, deterministic, small, near-N, shared), "
              "CreationPeriod 4-12, a schedule (permutation of submissions per round + block boundaries) and per-member deviations: round 1 (bad A0 / one-time "
              "proof, short/long commitments, replay, wrong member id, mismatch, negated commitments, stop), round 2 (flipped / other scalar / +n / wrong nonce / "
-             "wrong key / swapped / short / long shares, stop), round 3 (false, mixed, bad key-sym, bad signature, non-member, self, impersonated complaints, one MsgComplain mixing the sender's own complaint with an entry naming ANOTHER member as complainant at position 1 or later, bad confirm, stop), duplicates, out-of-round and non-member messages; non-trivial = >=1 deviation applied AND rounds 1,2,3 all reached; "
+             "wrong key / swapped / short / long shares, stop), round 3 (false, mixed, bad key-sym (also with a proof re-made consistently for the wrong key-sym, so that only the second half of the equality proof can reject it), bad signature, non-member, self, impersonated complaints, one MsgComplain mixing the sender's own complaint with an entry naming ANOTHER member as complainant at position 1 or later, bad confirm, stop), duplicates, out-of-round and non-member messages; non-trivial = >=1 deviation applied AND rounds 1,2,3 all reached; "
              "distinct = hash of case JSON",
         explanation="honest members are driven by the daemon's own round-3 code (cylinder hook) on the group state read through the chain's querier; the harness "
                     "knows every polynomial and decides share consistency with math/big: ACTIVE => group key == sum of constant-term commitments == (sum a_j0)G, "
@@ -285,14 +285,12 @@ PROPS = {
     "C19": dict(
         stages=[dict(test="TestC19", pkg="c19", quick=(16, 30), thorough=(16, 1500), timeout=dict(quick=900, thorough=3300),
                      crash_is_violation=True)],
-        rule="case = sim chain with 1-4 validators and 1-4 data sources whose executables are 1..4096 bytes (incl. < 32), 1-3 transactions of "
-             "1-3 requests with 1-6 raw requests (repeated sources), selection of the validator decided by the chain, RPC stub with injected "
+        rule="case = sim chain with 1-4 validators and 1-4 data sources whose executables are 1..4096 bytes (incl. < 32), 1-3 transactions of 1-3 requests with 1-6 raw requests (repeated sources), 1-3 ROUNDS handled by the same daemon Context and file cache with owner/foreign MsgEditDataSource transactions between rounds and between a request and its handling (new bytes, same bytes, [do-not-modify], fee/treasury only), later rounds asking edited sources again, selection of the validator decided by the chain, RPC stub with injected "
              "transient/permanent failures, executor stub with drawn outcome/delay per raw request, cache hit/miss, entry via handleRequest or "
              "handleTransaction, order/GOMAXPROCS perturbation; non-trivial = a processed request selecting the validator with >=2 raw requests "
              "AND >=1 injected failure actually served; distinct = hash of case JSON",
         explanation="after quiescence: exactly one MsgReportData per request selecting the validator (none otherwise), one raw report per external "
-                    "id, exit code/output == stubbed outcome or 255 on load/executor failure, ValidateBasic and the chain's CheckValidReport accept "
-                    "it; each case is journalled before execution so a daemon panic (process death) yields the crashing case as replay",
+                    "id, exit code/output == stubbed outcome or 255 on load/executor failure, ValidateBasic and the chain's CheckValidReport accept it, the executable handed to the executor is the data source's executable at request time or at handling time (never an older one); each case is journalled before execution so a daemon panic (process death) yields the crashing case as replay",
         assumptions=["goroutine interleavings are perturbed, not enumerated", "SubmitReport/broadcast loop outside the statement",
                      "when /store queries fail max-try times the daemon gives up on the request; counted (store-exhausted), not flagged"],
         nt_floor=0.2,
@@ -301,10 +299,10 @@ PROPS = {
         stages=[dict(test="TestC20Loop", pkg="c20", quick=(16, 14), thorough=(16, 1200), timeout=dict(quick=900, thorough=3400)),
                 dict(test="TestC20Submit", pkg="c20", quick=(8, 250), thorough=(16, 12500), timeout=dict(quick=600, thorough=3300))],
         rule="Loop: closed loop in virtual time (200-600 s, 1 s polling with drawn phase) between the real signaller step and the real feeds module on a "
-             "sim chain: price-service streams with status flips and moves at old*(1+-dev)+{-1,0,1}, feed-list changes by votes, drawn block-time "
+             "sim chain: price-service streams with status flips and moves at old*(1+-dev)+{-1,0,1}, feed-list changes by votes, feeds parameter changes through real governance proposals in the middle of the run (CooldownTime up/down, GracePeriod, MaxInterval, deviation bounds, PriceQuorum) followed by bursts of moves and status flips, drawn block-time "
              "offsets in [-3 s,+0.9 s], lost/failed submissions; non-trivial = >=1 status-change, >=1 deviation-triggered and >=1 slot-triggered "
              "submission. Submit: submitPrice against RPC stubs with 10 drawn failure kinds; non-trivial = >=1 injected failure; distinct = hash of case JSON",
-        explanation="(1) every landed submission is accepted by the real MsgSubmitSignalPrices handler; (2) the validator is never deactivated for a signal "
+        explanation="(1) every landed submission is accepted by the real MsgSubmitSignalPrices handler under the chain's CURRENT params (a submission decided before a parameter change became visible to the daemon's once-per-tick poll is excused and counted); (2) the validator is never deactivated for a signal "
                     "the price service kept serving; (3) integer reference predicate (status change or deviation >= threshold, past cooldown+buffer, not "
                     "in flight) => the step emits the signal; (4) nothing in flight is emitted again, pending set == harness in-flight set; Part B: after "
                     "every outcome the pending set is released and the key is back in the idle pool",
